@@ -50,6 +50,25 @@ template <typename... ArgTypes> inline void ___print___(ArgTypes... args) {
   (void)expand_variadic_pack{0, ((crab::errs() << args), void(), 0)...};
 }
 
+#ifdef CRAB_VERIF_SIM
+/* Verification hook H1 (off by default): a fatal error unwinds to the
+   simulation harness instead of exiting the process. The harness
+   defines crab::verif::raise_fatal_error. */
+namespace verif {
+[[noreturn]] void raise_fatal_error(const std::string &msg);
+} // namespace verif
+template <typename... ArgTypes>
+inline void ___print_to___(crab_os &o, ArgTypes... args) {
+  using expand_variadic_pack = int[];
+  (void)expand_variadic_pack{0, ((o << args), void(), 0)...};
+}
+#define CRAB_ERROR(...)                                                        \
+  do {                                                                         \
+    crab::crab_string_os ___verif_os___;                                       \
+    crab::___print_to___(___verif_os___, __VA_ARGS__);                         \
+    ::crab::verif::raise_fatal_error(___verif_os___.str());                    \
+  } while (0)
+#else
 #define CRAB_ERROR(...)                                                        \
   do {                                                                         \
     crab::errs() << "CRAB ERROR: ";                                            \
@@ -57,6 +76,7 @@ template <typename... ArgTypes> inline void ___print___(ArgTypes... args) {
     crab::errs() << "\n";                                                      \
     std::exit(EXIT_FAILURE);                                                   \
   } while (0)
+#endif
 
 extern bool CrabWarningFlag;
 void CrabEnableWarningMsg(bool b);
